@@ -54,16 +54,21 @@ def solve_tight(p, guess=None):
     return None
 
 
-def results(p, types):
-    """named pair functions of a solved object"""
+def results(p, types, full=False):
+    """named pair functions of a solved object, every one read through the type LABELS (both orders)"""
+    out = {}
+    calc = pyPRISM.calculate
     with np.errstate(all='ignore'):
-        g = pyPRISM.calculate.pair_correlation(p)
-        gd = {(a, b): np.array(g[a, b]) for a in types for b in types}
-        S = pyPRISM.calculate.structure_factor(p)
-        Sd = {(a, b): np.array(S[a, b]) for a in types for b in types}
-        w = pyPRISM.calculate.pmf(p)
-        wd = {(a, b): np.array(w[a, b]) for a in types for b in types}
-    return {'g': gd, 'S': Sd, 'pmf': wd}
+        todo = [('g', calc.pair_correlation, {}), ('S', calc.structure_factor, {}), ('pmf', calc.pmf, {})]
+        if full:
+            todo += [('Sn', calc.structure_factor, {'normalize': False}), ('B2', calc.second_virial, {})]
+            if len(types) >= 2:
+                todo += [('psiH', calc.solvation_potential, {}), ('psiP', calc.solvation_potential, {'closure': 'PY'}), ('chi', calc.chi, {}), ('spin', calc.spinodal_condition, {})]
+        for name, fn, kw in todo:
+            q = copy.deepcopy(p) if full else p            # each quantity from the solved state (history effects are C06's subject)
+            v = fn(q, **kw)
+            out[name] = {(a, b): (None if v[a, b] is None else np.array(v[a, b], dtype=float)) for a in types for b in types}
+    return out
 
 
 def block_omegas(kind, N, s, k):
@@ -231,19 +236,31 @@ def run_case(ctx, case):
     if r2 is None:
         raise core.Skip('related solve did not converge from the mapped root')
     y2 = float(np.abs(r2.fun).max())
-    res1 = results(p1, sp['types'])
-    res2 = results(p2, [lab(t) for t in sp2['types']])
+    full = not kind.startswith('split')
+    res1 = results(p1, sp['types'], full)
+    res2 = results(p2, [G.fresh(lab(t)) for t in sp2['types']], full)
     tolr = 1e-6 + 1e4 * (y1 + y2) + 1e-12 / rmin
     ncmp = 0
-    which = ['g'] if kind.startswith('split') else ['g', 'S', 'pmf']
+    which = ['g'] if kind.startswith('split') else [q for q in ('g', 'S', 'pmf', 'Sn', 'B2', 'psiH', 'psiP', 'chi', 'spin') if q in res1]
     for q in which:
         for a in sp2['types']:
             for b in sp2['types']:
                 ref = res1[q][parent[a], parent[b]]
                 got = res2[q][lab(a), lab(b)]
+                if ref is None and got is None:
+                    continue                                  # chi / spinodal are defined for unlike pairs only
+                if (ref is None) != (got is None) or np.shape(ref) != np.shape(got):
+                    ctx.violation('invariance:%s:%s-differs' % (kind, q), '%s: %s[%s,%s] of the reformulated system is %s, of the base system %s' % (label, q, a, b, 'missing' if got is None else 'present with shape %s' % (np.shape(got),), 'missing' if ref is None else 'present with shape %s' % (np.shape(ref),)))
+                    return
+                ref, got = np.atleast_1d(ref), np.atleast_1d(got)
                 if q == 'pmf':
                     m = res1['g'][parent[a], parent[b]] > 1e-3
                     ref, got = lam * ref[m], got[m]
+                elif q in ('psiH', 'psiP'):
+                    m = np.isfinite(ref) & np.isfinite(got)
+                    if q == 'psiP' and not np.array_equal(np.isfinite(ref), np.isfinite(got)):
+                        ctx.count('psiP_log_domain_differs', kind)      # 1 + C S C changes sign within rounding: not judged
+                    ref, got = lam * ref[m], got[m]                    # an energy: scales with the common factor
                 sc = max(float(np.abs(ref).max()) if ref.size else 0.0, 1.0)
                 with np.errstate(all='ignore'):
                     err = float(np.nanmax(np.abs(got - ref))) / sc if ref.size else 0.0
